@@ -53,7 +53,7 @@ func runC05(r *Result, d *drv.Driver, tier string, seed int64, replay string) {
 	if tier == "thorough" {
 		nValid = 600
 	}
-	r.Rule = fmt.Sprintf("per-call allocation (runtime.MemStats.TotalAlloc delta) of the real Decode on: valid messages; every item position of every message (string, bytes, structure, skipped, fixed) with its declared length replaced by each of {0, 1, 2^16, 2^20, 2^30, 2^31, 2^32-8, 2^32-1}, with and without truncating the input right after that header, and the same with every enclosing structure's length inflated consistently (so the lying item fits its parents); random mutations. "+
+	r.Rule = fmt.Sprintf("per-call allocation (runtime.MemStats.TotalAlloc delta) of the real Decode on: valid messages; every item position of every message (string, bytes, structure, skipped, fixed) with its declared length replaced by each of {0, 1, 2^16, 2^20, 2^30, 2^31, 2^32-8, 2^32-1}, with and without truncating the input right after that header, and the same with every enclosing structure's length inflated consistently (so the lying item fits its parents); long values lying about their length while backed by 4-12 KiB of real payload; random mutations. "+
 		"Violation: allocation > %d x input length + %d bytes (the model's linear bound with A = %d). distinct = distinct input; non-trivial = carries a hostile length", allocA, allocB, allocA)
 	types := allDecodeTypes()
 	g := gen.New(seed)
@@ -91,6 +91,44 @@ func runC05(r *Result, d *drv.Driver, tier string, seed int64, replay string) {
 		}
 		if len(inputs) > 40000 && tier != "thorough" {
 			break
+		}
+	}
+	// long values: the lying item is backed by several KiB of real payload (so that any "grow as data arrives" logic is
+	// exercised), every enclosing structure lies consistently, and the input stops after 4 KiB / 8 KiB / 12 KiB of payload
+	for _, v := range []struct {
+		typ string
+		val interface{}
+	}{
+		{"Name", kmip.Name{Value: strings.Repeat("n", 13000), Type: 1}},
+		{"Request", kmip.Request{Header: kmip.RequestHeader{Version: kmip.ProtocolVersion{Major: 1, Minor: 4}, BatchCount: 1},
+			BatchItems: []kmip.RequestBatchItem{{Operation: kmip.OPERATION_GET, RequestPayload: kmip.GetRequest{UniqueIdentifier: strings.Repeat("u", 13000)}}}}},
+		{"Response", kmip.Response{Header: kmip.ResponseHeader{Version: kmip.ProtocolVersion{Major: 1, Minor: 4}, BatchCount: 1},
+			BatchItems: []kmip.ResponseBatchItem{{Operation: kmip.OPERATION_ACTIVATE, UniqueID: bytes.Repeat([]byte{7}, 13000), ResponsePayload: kmip.ActivateResponse{UniqueIdentifier: "x"}}}}},
+	} {
+		var eb bytes.Buffer
+		if err := kmip.NewEncoder(&eb).Encode(v.val); err != nil {
+			continue
+		}
+		data := eb.Bytes()
+		for _, nd := range mut.All(mut.Parse(data)) {
+			if nd.Typ == 1 || nd.Len < 12000 {
+				continue
+			}
+			for _, hl := range []uint32{1 << 20, 1 << 26, 1 << 30, 1<<32 - 16} {
+				c := append([]byte(nil), data...)
+				binary.BigEndian.PutUint32(c[nd.Off+4:], hl)
+				up := uint64(hl)
+				for p := nd.Parent; p != nil; p = p.Parent {
+					up += 4096
+					if up > 1<<32-8 {
+						up = 1<<32 - 8
+					}
+					binary.BigEndian.PutUint32(c[p.Off+4:], uint32(up))
+				}
+				for _, keep := range []int{4096 + 16, 8192 + 16, 12000} {
+					inputs = append(inputs, decInput{typ: v.typ, data: c[:nd.Off+8+keep], origin: fmt.Sprintf("hostile-long:type%d", nd.Typ)})
+				}
+			}
 		}
 	}
 	// the classic: a 32-byte request claiming a 2^32-1 byte string
